@@ -52,7 +52,7 @@ package based
 //@   ensures [bound] resp != nil && resp.Batch != nil ==> sumLen(resp.Batch.Transactions, len(resp.Batch.Transactions)) <= ite(req.MaxBytes != 0, req.MaxBytes, 1500000)
 //@   ensures [count] resp != nil && resp.Batch != nil ==> len(resp.Batch.Transactions) == len(resp.BatchData)
 //@   ensures [scan-persisted] err == nil && val(s.Id) == val(req.Id) ==> put.count == 1
-//@   ensures [scan-after-push] push ==> put && val(put.arg3) == decBytes(nextDAHeight + 1)
+//@   ensures [scan-after-push] push ==> put && rwh && val(put.arg3) == decBytes(ite(rwh.arg3 + 1 >= 18446744073709551616, 0, rwh.arg3 + 1))   # the height whose remainder was queued is the one fetched last
 //@   ensures [no-overtake] pop && len(pop.arg0.list) > 0 ==> rwh.count == 0
 //@   loop 1 invariant [size] size <= maxBytes && resp != nil && resp.Batch != nil && len(resp.Batch.Transactions) == len(resp.BatchData)
 //@                       && size == sumLen(resp.Batch.Transactions, len(resp.Batch.Transactions)) && push.count == 0
